@@ -308,3 +308,5 @@ _check_before_listing = check
 def check(ctx, run):  # noqa: F811
     _check_before_listing(ctx, run)
     listing_rule(ctx, run)
+    from ..registry import histories_rule
+    histories_rule(ctx, run, "C01.R8h", only=("relist", "relist-zero", "clauses"))
